@@ -239,6 +239,20 @@ pub fn run(ctx: &mut Ctx) {
             patch_case(ctx, &m, &wb, None, &format!("{kind} patch digest at {lo} filled with {fill:#x}, wrong base"));
         }
         { let mut m = pb.clone(); let (a, b) = m.split_at_mut(40); a[24..40].swap_with_slice(&mut b[..16]); patch_case(ctx, &m, &base, None, "digests swapped"); }
+        // identity patches (declared result = declared base, all 32 digest bytes and both sizes coincide): still a patch for
+        // THAT base only - any other base (altered, longer, shorter, empty) is refused, never handed back as the result
+        if i % 4 == 0 {
+            let idp = if i % 3 == 0 { patch_bytes("copy", &base, &base, &base, base.len() as u32) }
+                else { let mut rng = ctx.rng.clone(); let blk = bsd0_block(&mut rng, &base, &base); ctx.rng = rng; patch_bytes("bsd0", &base, &base, &rle_encode(&blk), blk.len() as u32) };
+            patch_case(ctx, &idp, &base, Some(&base), &format!("{kind} identity patch base={blen}"));
+            let mut longer = base.clone(); longer.push(7);
+            for (what, other) in [("altered base", wb.clone()), ("longer base", longer), ("shorter base", base[..base.len().saturating_sub(1)].to_vec()), ("empty base", vec![])] {
+                if other == base { continue; }
+                patch_case(ctx, &idp, &other, None, &format!("{kind} identity patch on {what}"));
+                let r = std::panic::catch_unwind(|| PatchFile::parse(&idp).map(|p| apply_patch(&p, &other)));
+                ctx.out.oracle(!matches!(r, Ok(Ok(Ok(_)))), "patch-result-unverified", &format!("{kind} identity patch for a {blen}-byte base accepted {what} ({} bytes)", other.len()));
+            }
+        }
         if pb.len() > 3 { patch_case(ctx, &pb[..pb.len() - 1], &base, None, "truncated by one"); patch_case(ctx, &pb[..66.min(pb.len())], &base, None, "truncated header"); }
     }
     // patch entries inside a chain: an archive whose entry carries the patch-file flag (TPatchInfo + PTCH image stored
@@ -290,6 +304,24 @@ pub fn run(ctx: &mut Ctx) {
                     Ok(Err(_)) => ctx.out.oracle(!should_apply, "chain-patch-not-applied", &format!("{desc}: error")),
                 }
                 ctx.out.stat(&format!("c08.chainpatch.{}", what.replace(' ', "_")));
+                // the history goes on after a patched read: every later answer follows the chain as it is NOW (nothing kept
+                // from the earlier read) - re-prioritised below the base, back, removed, re-added, cleared
+                if should_apply {
+                    let rd = |c: &mut PatchChain| std::panic::catch_unwind(std::panic::AssertUnwindSafe(|| c.read_file(NAME))).unwrap_or_else(|_| Err(wow_mpq::Error::invalid_format("panic")));
+                    let mut steps: Vec<(&str, Option<Vec<u8>>)> = vec![];
+                    let _ = rd(&mut chain);
+                    let _ = chain.set_priority(&pp, -5); steps.push(("patch archive re-prioritised below the base", rd(&mut chain).ok()));
+                    let want0 = Some(base.clone());
+                    let _ = chain.set_priority(&pp, 100); steps.push(("patch archive back on top", rd(&mut chain).ok()));
+                    let _ = chain.remove_archive(&pp); steps.push(("patch archive removed", rd(&mut chain).ok()));
+                    let _ = chain.add_archive(&pp, 100); steps.push(("patch archive added again", rd(&mut chain).ok()));
+                    chain.clear(); steps.push(("chain cleared", rd(&mut chain).ok()));
+                    let wants = [want0.clone(), Some(new.clone()), want0, Some(new.clone()), None];
+                    for ((st, got), want) in steps.iter().zip(wants.iter()) {
+                        ctx.out.oracle(got == want, "chain-answer-does-not-follow-history", &format!("{desc}; then {st}: got {:?} bytes, want {:?}", got.as_ref().map(|d| d.len()), want.as_ref().map(|d| d.len())));
+                    }
+                    ctx.out.oracle(chain.get_chain_info().is_empty() && !chain.contains_file(NAME), "chain-answer-does-not-follow-history", &format!("{desc}: cleared chain still lists archives or the name"));
+                }
             }
         }
     }
